@@ -323,23 +323,37 @@ let () =
     | Ok -> ()
     | Fail d -> Printf.printf "FAIL %s %d %s | %s | %s\n" !case !step kind line d
     | Undecided -> incr stats_undecided; Printf.printf "UNDECIDED %s %d %s | %s\n" !case !step kind line in
+  let raw_lines : (int, string) Hashtbl.t = Hashtbl.create 8 and last_line : (int, string) Hashtbl.t = Hashtbl.create 8 in
+  let tainted = ref false in
+  let parse_keep l = let st = parse_st l in Hashtbl.replace raw_lines st.sid l; st in
   let read_states () =
     let rec loop acc = match rdo1 () with
       | "endst" -> List.rev acc
-      | l when String.length l > 9 && String.sub l 0 13 = "HARNESS-ERROR" -> Printf.printf "HARNESS %s\n" l; exit 3
-      | l -> loop (parse_st l :: acc) in
+      | l when String.length l > 13 && String.sub l 0 13 = "HARNESS-ERROR" -> Printf.printf "HARNESS %s\n" l; exit 3
+      | l -> loop (parse_keep l :: acc) in
     loop [] in
-  (* compare every object with the model, then resynchronise *)
-  let judge_states opname line (sts : st list) =
+  (* compare every object with the model, then resynchronise.  An object whose printed state is
+     textually the one already judged, and which the model did not touch in this step, is not judged again.
+     Once a flag-lies OK() failure that the model reproduces has been reported in a case, its
+     inherited repetitions (copies, later steps on the same object) are not reported again. *)
+  let judge_states ?(touched = []) opname line (sts : st list) =
     let failed = ref false in
     List.iter (fun st ->
       match (try Some (get st.sid) with Syntax _ -> None) with
       | None -> ()
       | Some o ->
-        let vs = check_state o st in
-        List.iter (fun (k, v) -> report (opname ^ "/" ^ k) (line ^ " @obj " ^ string_of_int st.sid) v;
-                                 (match v with Fail _ when k <> "OK" -> failed := true | _ -> ())) vs) sts;
-    if !failed then dead := true else List.iter resync sts in
+        let raw = (try Hashtbl.find raw_lines st.sid with Not_found -> "") in
+        if (try Hashtbl.find last_line st.sid = raw with Not_found -> false) && not (List.mem st.sid touched) then bump "state-unchanged-skipped"
+        else begin
+          let vs = check_state o st in
+          List.iter (fun (k, v) ->
+            let inherited = (k = "OK" && (match v with Fail d -> String.length d > 25 && !tainted | _ -> false)) in
+            if not inherited then report (opname ^ "/" ^ k) (line ^ " @obj " ^ string_of_int st.sid) v;
+            (match v with Fail d when k = "OK" && String.length d > 25 -> tainted := true | _ -> ());
+            (match v with Fail _ when k <> "OK" -> failed := true | _ -> ())) vs;
+          Hashtbl.replace last_line st.sid raw
+        end) sts;
+    if !failed then dead := true else List.iter (fun st -> resync st) sts in
   (try
     while true do
       let line = input_line ic in
@@ -348,7 +362,7 @@ let () =
        | [] -> ()
        | t :: _ when t.[0] = '#' -> ()
        | "case" :: id :: tp :: _ -> case := id; topo := tp; step := 0; dead := false; Hashtbl.reset pool; incr stats_cases;
-           cow_hist := []; cow_n := 0; ignore (rdo ())
+           cow_hist := []; cow_n := 0; Hashtbl.reset raw_lines; Hashtbl.reset last_line; tainted := false; ignore (rdo ())
        | "end" :: _ -> ignore (rdo ())
        | "cw" :: rest ->
            incr step; incr stats_steps;
@@ -373,7 +387,7 @@ let () =
              let vals = run_values (nat !cow_n) !cow_hist in
              let n = nat (!cow_dim + 1) in
              (* sharing pattern: the same Rep in the implementation iff the same location in the model *)
-             let mloc h = (match get (hs stm) (nat h) with Some l -> Some (int_of_nat l) | None -> None) in
+             let mloc h = (match Pset.get (hs stm) (nat h) with Some l -> Some (int_of_nat l) | None -> None) in
              let arr = Array.of_list obs in
              let v_share = ref Ok and v_refs = ref Ok and v_val = ref Ok and v_vs = ref Ok in
              Array.iteri (fun h o ->
@@ -407,7 +421,7 @@ let () =
            let ret = ref None in
            (match split !l2 with "ret" :: v :: _ -> ret := Some v; l2 := "" | _ -> ());
            let sts = (if !l2 = "" then read_states () else if !l2 = "endst" then [] else
-                        (let first = parse_st !l2 in first :: read_states ())) in
+                        (let first = parse_keep !l2 in first :: read_states ())) in
            if not !dead then begin
              let opname = (match toks with "op" :: _ :: o :: _ -> "op:" ^ o | "new" :: _ :: _ :: h :: _ -> "new:" ^ h | _ -> "copy") in
              bump opname;
@@ -439,11 +453,11 @@ let () =
                                                   "difference_OK", (if st_x.sok then Ok else Fail "OK() false") ] in
                                   List.iter (fun (k, v) -> report ("op:difference_assign/" ^ k) line v; (match v with Fail _ -> dead := true | _ -> ())) vs;
                                   (* adopt the result; the argument (NNC only) has been omega-reduced in place *)
-                                  resync st_x;
+                                  resync st_x; Hashtbl.replace last_line id (try Hashtbl.find raw_lines id with Not_found -> "");
                                   (if x.topo = "NNC" then [ yid, omega y ] else []), (fun () -> [])
                               | _ -> ref_op c)) in
                     List.iter (fun (i, o) -> Hashtbl.replace pool i o) upd;
-                    if not !dead then judge_states opname line sts;
+                    if not !dead then judge_states ~touched:(List.map fst upd) opname line sts;
                     List.iter (fun (k, v) -> report (opname ^ "/" ^ k) line v) (post ())
                   with Skip why ->
                     bump ("unmodelled:" ^ opname);
@@ -469,7 +483,7 @@ let () =
                   let upd, vs = ref_query { t = rest } ans in
                   List.iter (fun (k, v) -> report (qn ^ "/" ^ k) line v) vs;
                   List.iter (fun (i, o) -> Hashtbl.replace pool i o) upd;
-                  judge_states qn line sts
+                  judge_states ~touched:(List.map fst upd) qn line sts
                 with Skip _ -> bump ("unmodelled:" ^ qn); List.iter resync sts))
            end
        | _ -> raise (Syntax ("unknown case line: " ^ line)))
